@@ -74,6 +74,34 @@ func lockorderMain(args []string) {
 			return false
 		}
 	}
+	if len(args) > 0 && args[0] == "pref" {
+		// the writer preference itself: a reader holds b (stopped at "locked"), a writer is inside Lock(b): a second reader
+		// must wait (LOCKORDER ... r2_blocked=true); when the first reader is released all three commands return
+		start(true, func() { n.Exists("b") })
+		ok := wait()
+		start(false, func() { n.RPush("b", []byte("y")) })
+		time.Sleep(150 * time.Millisecond)
+		r2 := make(chan struct{})
+		start(false, func() { n.Exists("b"); close(r2) })
+		blocked := false
+		select {
+		case <-r2:
+		case <-time.After(400 * time.Millisecond):
+			blocked = true
+		}
+		close(release)
+		fin := make(chan struct{})
+		go func() { done.Wait(); close(fin) }()
+		select {
+		case <-fin:
+		case <-time.After(2 * time.Second):
+		}
+		cmu.Lock()
+		c := cnt
+		cmu.Unlock()
+		fmt.Printf("LOCKORDER done=%d/3 staged=%v r2_blocked=%v\n", c, ok, blocked)
+		return
+	}
 	start(true, func() { n.Exists("a", "b", "a") })
 	ok := wait()
 	n.RPush("a", []byte("x"))
